@@ -246,12 +246,32 @@ def strrule(ctx):
         obs.append(Ob('SA-STR', 'utils.truncate_basename|level %d|identity on legal input' % level, ok,
                       ctx.loc(funcs['truncate_basename'], funcs['truncate_basename'].node),
                       '' if ok else 'a basename that is already legal is altered (%r)' % (r,)))
-    # level 4: identity by construction
-    for nm, args in (('truncate_basename', [top(), 4, False]), ('mangle_dir_for_iso9660', [top(), 4])):
-        r = strdom.Interp(ctx, funcs).run(funcs[nm], args)
-        ok = isinstance(r, S) and r.same == 'input'
-        obs.append(Ob('SA-STR', 'utils.%s|level 4|identity' % nm, ok, ctx.loc(funcs[nm], funcs[nm].node),
-                      '' if ok else 'at level 4 the name must be returned unchanged'))
+    # level 4 files: anything goes except the ';' that separates the version at every level (the acceptance predicate
+    # splits the identifier at it): neither part of the mangled name may still contain one
+    fi = funcs['mangle_file_for_iso9660']
+    r = strdom.Interp(ctx, funcs).run(fi, [top(), 4])
+    if isinstance(r, T) and len(r.items) == 2 and all(isinstance(x, S) for x in r.items):
+        bad = [nm for nm, x in zip(('name', 'extension'), r.items) if ';' in x.chars]
+        obs.append(Ob('SA-STR', 'utils.mangle_file_for_iso9660|level 4|no version separator left', not bad, ctx.loc(fi, fi.node),
+                      '' if not bad else 'at level 4 the mangled %s may still contain \';\': the identifier built from it is split at the first \';\' into name and '
+                      'version, so the file is refused ("version between 1 and 32767") or silently recorded as another version of a shorter name' % ' and '.join(bad)))
+    else:
+        obs.append(Ob('SA-STR', 'utils.mangle_file_for_iso9660|level 4|no version separator left', False, ctx.loc(fi, fi.node),
+                      'the level 4 result could not be bounded (%r): the replacement of \';\' is no longer visible on every path' % (r,)))
+    # level 4: identity on legal input.  The only identifiers that are not legal at level 4 are the single bytes 0x00 and
+    # 0x01 (reserved for the dot and dotdot records, ECMA-119 7.6.2), which the manglers may replace.  The abstract
+    # inputs cover every other name: all names of two or more characters, and the one-character names outside the
+    # class of control / punctuation characters the two reserved bytes belong to.
+    legal4 = (('two or more characters', lambda: S(2, INF, strdom.ALL, 'input')),
+              ('one character, not a control or punctuation character', lambda: S(1, 1, set(strdom.ALL) - {'o'}, 'input')))
+    for nm, mk in (('truncate_basename', lambda a: [a, 4, False]), ('mangle_dir_for_iso9660', lambda a: [a, 4])):
+        bad = []
+        for label, inp in legal4:
+            r = strdom.Interp(ctx, funcs).run(funcs[nm], mk(inp()))
+            if not (isinstance(r, S) and r.same == 'input'):
+                bad.append(label)
+        obs.append(Ob('SA-STR', 'utils.%s|level 4|identity' % nm, not bad, ctx.loc(funcs[nm], funcs[nm].node),
+                      '' if not bad else 'at level 4 a legal name must be returned unchanged (not shown for names of %s)' % ' / '.join(bad)))
     return obs
 
 
